@@ -3197,6 +3197,7 @@ static size_t ZSTD_decompressContinue(ZSTD_DCtx* ctx, void* dst, size_t maxDstSi
             {
             case bt_compressed:
                 rSize = ZSTD_decompressBlock_internal(ctx, dst, maxDstSize, src, srcSize);
+                if (!ZSTD_isError(rSize) && rSize > BLOCKSIZE) return ERROR(corruption_detected);   /* as the single-call decoder */
                 break;
             case bt_raw :
                 rSize = ZSTD_copyRawBlock(dst, maxDstSize, src, srcSize);
